@@ -15,7 +15,7 @@ import (
 // the model.  NoSort is always set (the ordering by `sort.Sort` is not part of the subset).  Generator: FNZW (C04, C05, C16).
 //
 //	fn.zwsearch <pos> <ev: m|w> <opts: NoNullMove NoReduceSlides MultiCut as 0/1 digits> <table entries | -1> <ply> <depths d1,d2..>
-//	            <alpha> <cut> <frame move at ply-1> <pv hint: -|moves>
+//	            <alpha per call a1,a2.. (the last one is repeated)> <cut> <frame move at ply-1> <pv hint: -|moves>
 //	   ->  <value> <pv: -|moves> <stats> <table> <response map> <history map> <15 frame moves> <pv buffer of frame ply>   |   panic
 
 func init() {
@@ -35,8 +35,13 @@ func init() {
 		}
 		var ms []tak.Move
 		var v int64
-		for _, d := range strings.Split(a[5], ",") {
-			ms, v = z.Search(p, ply, atoi(d), pv, int64(atoi(a[6])), a[7] == "1")
+		alphas := strings.Split(a[6], ",")
+		for i, d := range strings.Split(a[5], ",") {
+			al := alphas[len(alphas)-1]
+			if i < len(alphas) {
+				al = alphas[i]
+			}
+			ms, v = z.Search(p, ply, atoi(d), pv, int64(atoi(al)), a[7] == "1")
 		}
 		return fmt.Sprintf("%d %s %s %s %s %s %s %s", v, mvsTok0(ms, false), statsTok(z.Stats()), tableTok(z.M.VerifTable(), z.M.VerifHasTable()),
 			respTok(z.M.VerifResponse()), histTok(z.History()), mvsTok(z.FrameMoves()), mvsTok(z.FramePV(ply)))
@@ -53,6 +58,24 @@ func genFNZW(c *Ctx) {
 		playout(r, randomConfig(r, size), stop, func(q *tak.Position) { p = q })
 		if p == nil {
 			continue
+		}
+		// half of the time the frame move at ply-1 is the move that led to the position (the slide reduction and the response
+		// table then see a consistent history), preferring slides
+		var led *tak.Move
+		if r.Chance(1, 2) {
+			am0 := p.AllMoves(nil)
+			for try := 0; try < 8 && len(am0) > 0; try++ {
+				mv := am0[r.Intn(len(am0))]
+				if !mv.IsSlide() && try < 4 {
+					continue
+				}
+				if child, err := p.MovePreallocated(mv, nil); err == nil {
+					if over, _ := child.GameOver(); !over || try >= 6 {
+						p, led = child, &mv
+						break
+					}
+				}
+			}
 		}
 		am := p.AllMoves(nil)
 		ev := []string{"m", "w"}[r.Intn(2)]
@@ -75,8 +98,12 @@ func genFNZW(c *Ctx) {
 		case 1:
 			depths = fmt.Sprintf("%d,%d", depth, depth)
 		}
-		if opts[2] == '1' && r.Chance(1, 2) && size == 3 {
+		cut := r.Intn(2)
+		if opts[2] == '1' && r.Chance(2, 3) && size == 3 {
 			depths = "4" // multi-cut needs depth > 3
+			if r.Chance(3, 4) {
+				cut = 1
+			}
 		}
 		if r.Chance(1, 20) {
 			depths = []string{"0", "-1"}[r.Intn(2)]
@@ -90,6 +117,17 @@ func genFNZW(c *Ctx) {
 			// a one-step slide that could have produced a stack here (the slide reduction looks at its source and destination)
 			prev = tak.Move{X: int8(r.Intn(size)), Y: int8(r.Intn(size)), Type: tak.MoveType(int(tak.SlideLeft) + r.Intn(4)), Slides: tak.Slides(1 + r.Intn(3))}
 		}
+		if led != nil {
+			prev = *led
+			if ply == 0 {
+				ply = 1 + r.Intn(3)
+			}
+		}
+		alphas := fmt.Sprint(alpha)
+		if strings.Contains(depths, ",") && r.Chance(2, 3) {
+			// a second call with a lower / higher window meets the bounds the first one stored
+			alphas = fmt.Sprintf("%d,%d", alpha, alpha+[]int{-1, -3, -20, 1, 7}[r.Intn(5)])
+		}
 		pv := "-"
 		if len(am) > 0 && r.Chance(1, 2) {
 			pv = mvTok(am[r.Intn(len(am))])
@@ -98,7 +136,7 @@ func genFNZW(c *Ctx) {
 			}
 		}
 		c.Count(fmt.Sprintf("size=%d depths=%s opts=%s tbl=%d", size, depths, opts, tbl))
-		out := c.Emit(fmt.Sprintf("fn.zwsearch %s %s %s %d %d %s %d %d %s %s", encRaw(p.VerifRaw(), false), ev, opts, tbl, ply, depths, alpha, r.Intn(2), mvTok(prev), pv))
+		out := c.Emit(fmt.Sprintf("fn.zwsearch %s %s %s %d %d %s %s %d %s %s", encRaw(p.VerifRaw(), false), ev, opts, tbl, ply, depths, alphas, cut, mvTok(prev), pv))
 		if out == "panic" {
 			c.Count("zw=panic")
 		} else if f := strings.Fields(out); len(f) > 1 && f[1] != "-" {
